@@ -10,7 +10,7 @@ import (
 	"pgregory.net/rapid"
 )
 
-var boundaryStrings = []string{"", "a", "ab", "0", "12", "-5", "abc", "true", "7", "2147483648", "-99999999999", "\u00e9t\u00e9"}
+var boundaryStrings = []string{"", "a", "ab", "0", "12", "-5", "abc", "true", "7", "2147483648", "-99999999999", "\u00e9t\u00e9", " 42", "42\r", "42\n", "\t7", "7 ", "+5", "0x10", "1e3", "\u00a042"}
 var boundaryNumbers = []int{0, 1, 2, 7, -3, 12}
 
 type exprGen struct {
